@@ -234,9 +234,9 @@ def run(ctx):
     if q:
         runs = [dict(MaxN=4, MaxUnits=2, MaxEdges=2, MaxEdgesBig=1, Salt=ctx.seed % 97, EmitMod=2, CheckSplit="FALSE", KindN=2, FewSubsets="TRUE", RootN=2)]
     else:
-        runs = [dict(MaxN=4, MaxUnits=2, MaxEdges=3, MaxEdgesBig=2, Salt=0, EmitMod=7, CheckSplit="FALSE", KindN=2, FewSubsets="FALSE", RootN=2),
-                dict(MaxN=3, MaxUnits=2, MaxEdges=3, MaxEdgesBig=3, Salt=1, EmitMod=3, CheckSplit="TRUE", KindN=3, FewSubsets="FALSE", RootN=3),
-                dict(MaxN=5, MaxUnits=1, MaxEdges=1, MaxEdgesBig=1, Salt=7, EmitMod=3, CheckSplit="FALSE", KindN=0, FewSubsets="FALSE", RootN=0)]
+        runs = [dict(MaxN=4, MaxUnits=2, MaxEdges=3, MaxEdgesBig=1, Salt=1, EmitMod=3, CheckSplit="TRUE", KindN=3, FewSubsets="FALSE", RootN=3),
+                dict(MaxN=4, MaxUnits=2, MaxEdges=0, MaxEdgesBig=2, Salt=0, EmitMod=7, CheckSplit="FALSE", KindN=0, FewSubsets="TRUE", RootN=0),
+                dict(MaxN=5, MaxUnits=1, MaxEdges=0, MaxEdgesBig=1, Salt=7, EmitMod=3, CheckSplit="FALSE", KindN=0, FewSubsets="FALSE", RootN=0)]
     stats = {"runs": 0, "exact": 0, "expected_err": 0}
     decisive, dtags = set(), set()
     allk = set()
@@ -296,6 +296,9 @@ def run(ctx):
     groups = split_groups(list(read_ndjson(tr)))
     for gi, ev in validate_groups(ctx, groups, "forest"):
         what = ev.get("ev")
+        if what == "Outcome" and isinstance(ev.get("o"), dict) and ev["o"].get("build") not in (None, "ok"):
+            # the random input could not be built with gimli's writer: a generator problem, not a filter result
+            raise ToolError("record: input forest %d could not be built: %s" % (gi, ev["o"].get("build")))
         sig = "trace:%s" % what
         if what == "Result":
             sig += ":ok" if ev.get("ok") else ":%s:%s" % (ev.get("stage"), ev.get("err"))
